@@ -300,13 +300,24 @@ def r9_builtin_types(run, F):
                     if f["name"] == "value_type":
                         lit_types.append(str(hirq.unwrap_trivial(f["e"]).get("res", "?")).split("::")[-1])
         if not lit_types:
+            # an untyped string literal is an *array* [N]char8 for the generator; a builtin announced as the slice []char8
+            # (for_string_slice) must not expand to a bare StringLiteral (`var f = file!();` stores [N x i8] into a slice slot)
+            strs = [p for p, node in hirq.constructs(helper["hir"]) if p.endswith("Expression::StringLiteral")]
+            for alt in hirq.pat_alts(a["pat"]) if strs else []:
+                b = hirq.pat_key(alt).split("::")[-1]
+                tarm = [x for x in max(tm, key=lambda m: len(m["arms"]))["arms"] if any(hirq.pat_key(z).split("::")[-1] == b for z in hirq.pat_alts(x["pat"]))]
+                says_slice = any((hirq.callee(c) or "").endswith("for_string_slice") for x in tarm for c in hirq.calls(x["body"]))
+                n += 1
+                run.ob("R9-BUILTIN-TYPES", b, not says_slice, F.where(helper),
+                       "%s!() is announced as the slice []char8 by the typer, %s expands it to a bare string literal, which the generator "
+                       "materialises as the array [N x i8] (only print!/format! arguments tolerate that)" % (b.lower(), callee.split("::")[-1]))
             continue
         for alt in hirq.pat_alts(a["pat"]):
             b = hirq.pat_key(alt).split("::")[-1]
             n += 1
             run.ob("R9-BUILTIN-TYPES", b, announced.get(b) == sorted(set(lit_types)), F.where(helper),
                    "%s!() is announced as %s by the typer, %s expands it to a literal of type %s" % (b.lower(), announced.get(b), callee.split("::")[-1], lit_types))
-    run.floor("R9-BUILTIN-TYPES", 1, "builtins that expand to a typed literal (line!)")
+    run.floor("R9-BUILTIN-TYPES", 2, "builtins that expand directly to a literal (line!, file!)")
 
 
 def check(run):
